@@ -4,7 +4,8 @@
 //! printed; the Lean driver (`umdriver broker`) replays the same lines through the model.
 //!
 //! Op grammar (tokens separated by one space):
-//!   add_proxy <addr> <node0> <node1> <host|->      remove_proxy <addr>
+//!   mode ordered                                   (first line of a case: `MetaStore::new(true)`)
+//!   add_proxy <addr> <node0> <node1> <host|-> [<index|->]      remove_proxy <addr>
 //!   add_cluster <name> <node_num> <choice>         remove_cluster <name>
 //!   add_nodes <name> <num> <choice>                scale_up <name> <expected> <choice>
 //!   change_num <name> <expected> <choice>          scale_out_num <name> <expected>
@@ -26,6 +27,7 @@ use std::convert::TryFrom;
 
 struct World {
     store: MetaStore,
+    ordered: bool,             // the case runs with `enable_ordered_proxy = true`
     s: Streams,
     case: u64,
     ops: Vec<String>,          // op lines of the current case (for replays)
@@ -70,12 +72,13 @@ fn parse_ranges(s: &str) -> Option<Vec<Range>> {
 
 impl World {
     fn new(s: Streams) -> Self {
-        World { store: MetaStore::new(false), s, case: 0, ops: vec![], last_epochs: BTreeMap::new(), max_served: BTreeMap::new(),
+        World { store: MetaStore::new(false), ordered: false, s, case: 0, ops: vec![], last_epochs: BTreeMap::new(), max_served: BTreeMap::new(),
                 last_global: 0, saw_migration: false, saw_failover: false, panicked: false, quiet_views: false, snapshot: None, recover_floor: None, view_cache: vec![None, None, None, None] }
     }
-    fn new_case(&mut self) {
+    fn new_case(&mut self, ordered: bool) {
         self.flush_case_stats();
-        self.store = MetaStore::new(false);
+        self.store = MetaStore::new(ordered);
+        self.ordered = ordered;
         self.case = self.s.case();
         self.ops.clear();
         self.last_epochs.clear();
@@ -86,6 +89,15 @@ impl World {
         self.panicked = false;
         self.snapshot = None;
         self.recover_floor = None;
+        self.s.stats.count(if ordered { "gen.mode.ordered" } else { "gen.mode.normal" });
+        if ordered {
+            // the mode is fixed at construction; the model selects it with this first line
+            self.emit("mode ordered".to_string(), format!("OK g={}", self.store.global_epoch));
+        }
+    }
+    fn is_fresh(&self) -> bool {
+        let st = &self.store;
+        st.global_epoch == 0 && st.clusters.is_empty() && st.all_proxies.is_empty() && st.failed_proxies.is_empty() && st.failures.is_empty()
     }
     fn flush_case_stats(&mut self) {
         if self.case > 0 && self.saw_migration && self.saw_failover {
@@ -119,6 +131,16 @@ impl World {
                     let host = if *h == "-" { None } else { Some(h.to_string()) };
                     let r = st.add_proxy(a.to_string(), [n0.to_string(), n1.to_string()], host, None);
                     (toks.join(" "), fin(st, r.map(|_| String::new())))
+                }
+                ["add_proxy", a, n0, n1, h, i] => {
+                    let host = if *h == "-" { None } else { Some(h.to_string()) };
+                    match (if *i == "-" { Some(None) } else { i.parse::<usize>().ok().map(Some) }) {
+                        Some(index) => {
+                            let r = st.add_proxy(a.to_string(), [n0.to_string(), n1.to_string()], host, index);
+                            (toks.join(" "), fin(st, r.map(|_| String::new())))
+                        }
+                        None => (toks.join(" "), "bad-op".to_string()),
+                    }
                 }
                 ["remove_proxy", a] => { let r = st.remove_proxy(a.to_string()); (toks.join(" "), fin(st, r.map(|_| String::new()))) }
                 ["add_cluster", n, k, _] => {
@@ -215,6 +237,12 @@ impl World {
         let toks: Vec<&str> = line.split(' ').collect();
         let before_store = self.store.clone();
         let (op, obs) = match toks.as_slice() {
+            ["mode", "ordered"] => {
+                // `MetaStore::new(true)`; like the model's `Store.setOrdered` this selects the mode only while
+                // nothing has happened yet and is a no-op anywhere else in a history
+                if self.is_fresh() { self.store = MetaStore::new(true); self.ordered = true; }
+                ("mode ordered".to_string(), format!("OK g={}", self.store.global_epoch))
+            }
             ["snap"] => { self.snapshot = Some(self.store.clone()); ("snap".to_string(), format!("snap g={}", self.store.global_epoch)) }
             ["restart", _] if self.snapshot.is_some() => {
                 // a broker process restarts from the snapshot (real `MetaStore::restore` into a fresh store), then runs
@@ -288,7 +316,8 @@ impl World {
             let old = cluster_proxy_set(before, toks[1]);
             if let Ok(cn) = ClusterName::try_from(toks[1]) { if let Some(c) = store.clusters.get(&cn) {
                 for ch in c.chunks.iter() {
-                    if !old.contains(&ch.proxy_addresses[0]) && ch.hosts[0] == ch.hosts[1] {
+                    // the two-hosts clause is a property of the host-based allocator; ordered mode allocates by index
+                    if !store.enable_ordered_proxy && !old.contains(&ch.proxy_addresses[0]) && ch.hosts[0] == ch.hosts[1] {
                         self.fail(format!("C12: new chunk {},{} has both proxies on host {}", ch.proxy_addresses[0], ch.proxy_addresses[1], ch.hosts[0]), "");
                     }
                     for a in ch.proxy_addresses.iter() { if !old.contains(a) {
@@ -471,7 +500,11 @@ impl World {
             }
         } }
         // C12 replacement host: "replaced by one on a host different from its surviving partner whenever such
-        // a host has a free healthy proxy"
+        // a host has a free healthy proxy" — ordered mode (StatefulSet) never replaces a proxy: the clause does not apply
+        if bstore.enable_ordered_proxy {
+            self.s.stats.count("failover.ordered_no_replacement_clause");
+            return;
+        }
         let fhost = bstore.all_proxies.get(failed).map(|p| p.host.clone()).unwrap_or_default();
         let partner_host = bstore.clusters.values().flat_map(|c| c.chunks.iter()).find_map(|ch| {
             if ch.proxy_addresses[0] == failed { Some(ch.hosts[1].clone()) } else if ch.proxy_addresses[1] == failed { Some(ch.hosts[0].clone()) } else { None }
@@ -502,18 +535,40 @@ fn kind_is_scale_down(_before: &MetaStore, kind: &str, _toks: &[&str]) -> bool {
 // generator
 // ---------------------------------------------------------------------------------------------
 
-struct Gen { rng: Rng, next_proxy: usize, hosts: usize, big: bool }
+struct Gen { rng: Rng, next_proxy: usize, hosts: usize, big: bool, ordered: bool, stats: Vec<&'static str> }
 
 impl Gen {
-    fn proxy_line(&mut self, host: usize) -> String {
+    /// the `index` token of an `add_proxy` line. Ordered mode: mostly the smallest index no registered proxy
+    /// carries (so that the pool stays consecutive and heals after removals), sometimes a duplicate, a gap, an
+    /// arbitrary small number or none at all (`MissingIndex`). Normal mode: usually absent (old 5-token form),
+    /// sometimes present (the code ignores it and stores 0).
+    fn index_token(&mut self, store: &MetaStore) -> Option<String> {
+        let used: BTreeSet<usize> = store.all_proxies.values().map(|p| p.index).collect();
+        let smallest_missing = (0..).find(|i| !used.contains(i)).unwrap_or(0);
+        let max = used.iter().next_back().cloned().unwrap_or(0);
+        if self.ordered {
+            let r = self.rng.below(100);
+            if r < 82 { self.stats.push("gen.index.consecutive"); Some(format!("{}", smallest_missing)) }
+            else if r < 89 && !used.is_empty() { self.stats.push("gen.index.duplicate"); let v: Vec<usize> = used.iter().cloned().collect(); Some(format!("{}", self.rng.pick(&v))) }
+            else if r < 94 { self.stats.push("gen.index.gap"); Some(format!("{}", max + 2 + self.rng.below(3) as usize)) }
+            else if r < 97 { self.stats.push("gen.index.random"); Some(format!("{}", self.rng.below(12))) }
+            else if r < 99 { self.stats.push("gen.index.missing"); Some("-".to_string()) }
+            else { self.stats.push("gen.index.absent"); None }
+        } else if self.rng.chance(1, 7) {
+            self.stats.push("gen.index.ignored");
+            Some(if self.rng.chance(1, 4) { "-".to_string() } else { format!("{}", self.rng.below(9)) })
+        } else { None }
+    }
+    fn proxy_line(&mut self, store: &MetaStore, host: usize) -> String {
         let j = self.next_proxy; self.next_proxy += 1;
         let explicit = self.rng.chance(3, 4);
-        if explicit {
+        let base = if explicit {
             format!("add_proxy p{}:{} n{}:{} n{}:{} h{}", j, 6000 + j, j, 7000 + 2 * j, j, 7001 + 2 * j, host)
         } else {
             // host derived from the address prefix
             format!("add_proxy h{}:{} n{}:{} n{}:{} -", host, 6000 + j, j, 7000 + 2 * j, j, 7001 + 2 * j)
-        }
+        };
+        match self.index_token(store) { Some(i) => format!("{} {}", base, i), None => base }
     }
     fn pending(store: &MetaStore) -> Vec<(String, u64, String)> {
         let mut v = vec![];
@@ -530,13 +585,17 @@ impl Gen {
         let in_cluster: Vec<String> = proxies_in_clusters(store).into_iter().collect();
         let free: Vec<String> = proxies.iter().filter(|a| store.all_proxies[*a].cluster.is_none()).cloned().collect();
         let pend = Self::pending(store);
-        let rng = &mut self.rng;
         for _ in 0..50 {
+            let rng = &mut self.rng;
             let r = rng.below(100);
             match r {
-                0..=17 => { let h = rng.below(self.hosts as u64) as usize; return self.proxy_line(h); }
-                18..=19 => { if let Some(a) = proxies.first() { if rng.chance(1, 2) { let a = rng.pick(&proxies).clone(); let _ = a; } let a2 = rng.pick(&proxies).clone(); let _ = a; return format!("add_proxy {} x{}:1 x{}:2 -", a2, self.next_proxy, self.next_proxy); } }
-                20..=21 => { self.next_proxy += 1; let j = self.next_proxy; return format!("add_proxy {} y{}:1 y{}:2 -", rng.pick(&["nocolon", "a:b:c", ":", "h9:1"]), j, j); }
+                0..=17 => { let h = rng.below(self.hosts as u64) as usize; return self.proxy_line(store, h); }
+                18..=19 => { if let Some(a) = proxies.first() { if rng.chance(1, 2) { let a = rng.pick(&proxies).clone(); let _ = a; } let a2 = rng.pick(&proxies).clone(); let _ = a;
+                    // re-registration (in ordered mode with its own, another or no index: the stored record is kept)
+                    let idx = if self.ordered { match rng.below(4) { 0 => " -".to_string(), 1 => format!(" {}", rng.below(9)), _ => format!(" {}", store.all_proxies.get(&a2).map(|p| p.index).unwrap_or(0)) } } else { String::new() };
+                    return format!("add_proxy {} x{}:1 x{}:2 -{}", a2, self.next_proxy, self.next_proxy, idx); } }
+                20..=21 => { self.next_proxy += 1; let j = self.next_proxy; let idx = if self.ordered && rng.chance(3, 4) { format!(" {}", rng.below(30)) } else { String::new() };
+                    return format!("add_proxy {} y{}:1 y{}:2 -{}", rng.pick(&["nocolon", "a:b:c", ":", "h9:1"]), j, j, idx); }
                 22..=29 => { let n = *rng.pick(&names); let k = if self.big { 4 * rng.range(1, 40) } else { *rng.pick(&[4i64, 4, 8, 8, 12, 16, 6, 0]) }; return format!("add_cluster {} {} -", n, k); }
                 30..=37 => { if !clusters.is_empty() { let n = rng.pick(&clusters).clone(); let cur = store.clusters.values().find(|c| c.name.to_string() == n).map(|c| c.chunks.len() * 4).unwrap_or(4) as i64;
                     let k = if self.big { cur + 4 * rng.range(1, 30) } else { cur + *rng.pick(&[4i64, 4, 8, 12, 2, 0]) };
@@ -569,8 +628,14 @@ impl Gen {
     }
 }
 
+fn flush_gen_stats(w: &mut World, g: &mut Gen) {
+    for k in g.stats.drain(..) { w.s.stats.count(k); }
+}
+
 fn run_case(w: &mut World, g: &mut Gen, len: usize) {
-    w.new_case();
+    // about a quarter of the cases run with `MetaStore::new(true)` (ordered-proxy mode)
+    g.ordered = g.rng.chance(1, 4);
+    w.new_case(g.ordered);
     g.next_proxy = 0;
     g.hosts = g.rng.range(2, 7) as usize;
     // seed some resources so that most cases reach clusters quickly
@@ -579,7 +644,7 @@ fn run_case(w: &mut World, g: &mut Gen, len: usize) {
     if g.big { w.quiet_views = true; }
     for i in 0..initial {
         let h = if g.rng.chance(1, 5) { 0 } else { i % g.hosts };
-        let l = g.proxy_line(h);
+        let l = g.proxy_line(&w.store, h);
         // registrations of the initial pool are not interesting one by one: print without the observation block
         let toks: Vec<&str> = l.split(' ').collect();
         let (op, obs) = w.exec(&toks);
@@ -592,16 +657,22 @@ fn run_case(w: &mut World, g: &mut Gen, len: usize) {
         w.step(&l);
         if w.panicked { break; }
     }
+    flush_gen_stats(w, g);
 }
 
 /// DESIGN §7 F3 region: a long chain of scale-downs on a large cluster, commits in order
-fn run_scale_chain(w: &mut World, g: &mut Gen, start_nodes: usize, targets: &[usize]) {
-    w.new_case();
+fn run_scale_chain(w: &mut World, g: &mut Gen, ordered: bool, start_nodes: usize, targets: &[usize]) {
+    w.new_case(ordered);
     w.quiet_views = true;
     g.next_proxy = 0;
     let proxies = start_nodes / 2;
     for i in 0..proxies + 8 {
-        let l = format!("add_proxy p{}:{} n{}:{} n{}:{} h{}", i, 6000 + i, i, 7000 + 2 * i, i, 7001 + 2 * i, i % 6);
+        let l = if ordered {
+            // ordered mode: proxy `i` carries index `i` (hosts are irrelevant to the allocation)
+            format!("add_proxy p{}:{} n{}:{} n{}:{} h{} {}", i, 6000 + i, i, 7000 + 2 * i, i, 7001 + 2 * i, i % 6, i)
+        } else {
+            format!("add_proxy p{}:{} n{}:{} n{}:{} h{}", i, 6000 + i, i, 7000 + 2 * i, i, 7001 + 2 * i, i % 6)
+        };
         let toks: Vec<&str> = l.split(' ').collect();
         let (op, obs) = w.exec(&toks);
         w.emit(op, obs);
@@ -626,9 +697,9 @@ fn main() {
     let args = parse_args();
     let s = Streams::new(&args);
     let mut w = World::new(s);
-    let mut g = Gen { rng: Rng::new(args.seed), next_proxy: 0, hosts: 4, big: false };
+    let mut g = Gen { rng: Rng::new(args.seed), next_proxy: 0, hosts: 4, big: false, ordered: false, stats: vec![] };
     if let Some(p) = &args.replay {
-        w.new_case();
+        w.new_case(false);
         for l in read_lines(p) {
             if l.starts_with('#') || l.starts_with("case ") { continue; }
             let k = l.split(' ').next().unwrap_or("");
@@ -670,14 +741,16 @@ fn main() {
         g.big = false;
         // scale chains through the region where destinations already hold their final count
         if args.thorough {
-            run_scale_chain(&mut w, &mut g, 400, &[396, 368, 364]);
-            run_scale_chain(&mut w, &mut g, 800, &[796]);
+            run_scale_chain(&mut w, &mut g, false, 400, &[396, 368, 364]);
+            run_scale_chain(&mut w, &mut g, false, 800, &[796]);
+            run_scale_chain(&mut w, &mut g, true, 200, &[196, 100, 96, 120]);
         } else {
-            run_scale_chain(&mut w, &mut g, 64, &[60, 56, 28, 24, 8, 4, 16, 12]);
+            run_scale_chain(&mut w, &mut g, false, 64, &[60, 56, 28, 24, 8, 4, 16, 12]);
+            run_scale_chain(&mut w, &mut g, true, 32, &[28, 24, 8, 16, 12]);
         }
     }
     w.flush_case_stats();
     let sample_ops: Vec<String> = w.ops.iter().take(12).cloned().collect();
     w.s.stats.sample(json!({"last_case_first_ops": sample_ops}));
-    w.s.finish("broker", "random operation histories over MetaStore (register/remove proxies on 2-7 hosts, create/remove clusters, scale out/in incl. the convenience API, commits in random order incl. stale/foreign descriptors, failovers of random proxies, balance, config, epoch bump/recovery, failure reports); after every op: full store, check_metadata, digest of all served views for limits 0,1,2; non-trivial = a history that reached a pending migration AND a failover; distinct = distinct op sequences");
+    w.s.finish("broker", "random operation histories over MetaStore, about a quarter of them in ordered-proxy mode (MetaStore::new(true): add_proxy with an index — mostly consecutive, sometimes duplicate/gap/arbitrary/missing —, one cluster, index-ordered allocation, failover without replacement) (register/remove proxies on 2-7 hosts, create/remove clusters, scale out/in incl. the convenience API, commits in random order incl. stale/foreign descriptors, failovers of random proxies, balance, config, epoch bump/recovery, failure reports); after every op: full store, check_metadata, digest of all served views for limits 0,1,2; non-trivial = a history that reached a pending migration AND a failover; distinct = distinct op sequences");
 }
